@@ -178,11 +178,12 @@ def oracle_one(case: dict[str, Any], cfg: EnOptConfig, res: Any, x: np.ndarray, 
             exp = expected_value(estimator_of(case, kind, idx), table[:, col], w)
             check(exp is not None, "stddev-no-abort", f"stddev {kind} {idx} with <2 weighted realizations produced a value", case)
             got = float(reported[idx])
-            scale = 1.0 + float(np.nanmax(np.abs(table[:, col])))
+            scale = float(np.nanmax(np.abs(table[:, col]))) + 1e-300  # (relative to the magnitude of the values: 1e-9 is not zero)
             tol = RTOL * scale
             if estimator_of(case, kind, idx) == "stddev":
                 live = table[:, col][w > 0]
-                tol = 1e-7 * (1.0 + float(np.max(np.abs(live - live.mean())))) + 1e-13 * scale
+                # relative to the spread of the values (a spread of 1e-9 is a spread), plus the rounding of the level
+                tol = 1e-7 * float(np.max(np.abs(live - live.mean()))) + 1e-13 * float(np.nanmax(np.abs(table[:, col])))
             check(abs(got - exp) <= tol, "value",
                   f"{kind} {idx} ({estimator_of(case, kind, idx)}, filter {filter_of(case, kind, idx)}): reported {got!r}, "
                   f"formula {exp!r}; weights in force {w.tolist()}, values {table[:, col].tolist()}", case)
@@ -190,7 +191,7 @@ def oracle_one(case: dict[str, Any], cfg: EnOptConfig, res: Any, x: np.ndarray, 
     if comparable:
         wo = float(np.sum(obj_w * np.array(values[:k_n])))
         got = float(res.functions.weighted_objective)
-        check(abs(got - wo) <= RTOL * (1.0 + abs(wo)), "weighted-objective", f"weighted objective {got!r} != {wo!r}", case)
+        check(abs(got - wo) <= RTOL * (float(np.sum(np.abs(obj_w * np.array(values[:k_n])))) + 1e-300), "weighted-objective", f"weighted objective {got!r} != {wo!r}", case)
 
 
 def predicted_abort(case: dict[str, Any], cfg: EnOptConfig, x: np.ndarray, ev: AffineEvaluator) -> bool | None:
@@ -380,6 +381,10 @@ def hypothesis_shard(item: dict[str, Any]) -> Collector:
             col_b = draw(st.integers(0, k_n + c_n - 1))
             for r in range(r_n):
                 case["offsets"][r * (k_n + c_n) + col_b] += big
+        elif draw(st.integers(0, 5)) == 0:  # all values of the order 1e-9 (other units): small is not zero
+            case["slopes"] = [v * 1e-9 for v in case["slopes"]]
+            case["offsets"] = [v * 1e-9 for v in case["offsets"]]
+            case["tiny_values"] = True
         nan_n = draw(st.sampled_from([0, 0, 1, 1, 2, 3]))
         case["nans"] = sorted({(draw(st.integers(0, r_n - 1)), draw(st.integers(0, k_n + c_n - 1))) for _ in range(nan_n)})
         b_n = draw(st.integers(1, 3))
